@@ -35,4 +35,15 @@ F310  == <<3, 1, 0>>
 F100  == <<1, 0, 0>>
 F020  == <<0, 2, 0>>
 F0300 == <<0, 3, 0, 0>>
+
+(* Contexts of the calls: 0 never done, 2 done before the call, 5 cancelled while waiting for the mutex. *)
+Bg2 == <<0, 0>>
+Bg3 == <<0, 0, 0>>
+Bg4 == <<0, 0, 0, 0>>
+Bg5 == <<0, 0, 0, 0, 0>>
+C20   == <<2, 0>>
+C020  == <<0, 2, 0>>
+C250  == <<2, 5, 0>>
+C055  == <<0, 5, 5>>
+C0502 == <<0, 5, 0, 2>>
 =============================================================================
